@@ -34,6 +34,8 @@ def run(ctx):
         if a.translator is None:
             ctx.missing("R15.1", "translator (handle_diff) of %s" % name)
             continue
+        from . import balance
+        balance.run_adapter(ctx, a, want=("bound",))
         n += r15_1(ctx, a)
         per_diff_length(ctx, "R15.1b", a)
         r15_34(ctx, a)
@@ -48,6 +50,7 @@ def run(ctx):
             _c09.r09_3(ctx, _a)
             _c09.r09_5(ctx, _a)
             _c09.r09_8(ctx, _a)
+            _c09.r09_14(ctx, _a)
     groups.util_buffers(ctx)
 
 
@@ -103,7 +106,12 @@ def r15_1(ctx, a):
         # facts dominating the arm entry (e.g. the early `limit == 0` return) do not establish room
         forward_states(b, (0, 0), transfer, start=start, edge_filter=edge)
         where = b.line_at((start, 0))
-        if bad:
+        exact = getattr(ctx, "balance_verdicts", {}).get((a.name, "bound", v))
+        if bad and exact == "HOLDS":
+            # the guard is not in a form this syntactic rule recognises, but the exact analysis (R15.6: running view length in
+            # every feasible case of every path) proves the bound for this arm
+            ctx.undecided("R15.1", f, "arm=%s" % v, where, "room-before-entry not recognised syntactically; the bound itself is decided by R15.6")
+        elif bad:
             blk, vs = bad[0]
             ctx.violated("R15.1", f, "arm=%s" % v, b.line_at((blk, 10 ** 6)),
                          "%s translator, arm %s: a growing diff (%s) is emitted on a path with no preceding shrinking diff and no `prev_len < limit` edge: a full view holds limit+1 items after this diff" % (a.name, v, "/".join(vs)))
